@@ -143,12 +143,12 @@ CONFIG = {
     },
     "C18": {
         "rule": "one rapid property per indicator registry entry, per base strategy and one over generated decorator/compound expressions: configuration x series x factor 2^k "
-                "(k in [-8,8], k != 0) applied to all prices (open, high, low, close, free numeric inputs) or to all volumes. Oracle, bitwise: each indicator output equals the "
+                "(k in [-30,30], k != 0; |k| <= 8 in two thirds of the draws) applied to all prices (open, high, low, close, free numeric inputs) or to all volumes. Oracle, bitwise: each indicator output equals the "
                 "unscaled output times 2^(k*degree) with the registry's homogeneity degree (price 0/1/2, volume -1/0/1; not claimed for Mls/Mlr), NaN positions coincide; every "
                 "strategy's action stream is identical. Non-trivial: n > warm-up with a non-constant output / >= 1 non-Hold action. Distinct = (subject, configuration, k, unit, series).",
         "technique": "metamorphic property-based testing (rapid): exact power-of-two scale covariance, compared bit for bit",
         "level_text": "Power-of-two rescaling commutes exactly with IEEE +, -, x, /, sqrt away from over/underflow, so every output is compared bit for bit with the unscaled output times 2^(k*degree), and action streams must be identical. Needs no reference and no tolerance; exposes absolute thresholds, price/volume mix-ups and constants on the wrong side. Sampling.",
-        "level_note": "Homogeneity degrees are read off the doc-comment formulas (reg/*.go). Values stay far from overflow/underflow (prices < 2^12, |k| <= 8).",
+        "level_note": "Homogeneity degrees are read off the doc-comment formulas (reg/*.go). Values stay far from overflow/underflow (prices < 2^12, |k| <= 30, so squares and price x volume products stay within 2^-80 .. 2^110).",
         "assumptions": ["degrees per output as listed in the registry"],
         "gomaxprocs": [1],
         "quick": {"checks": 100, "shards": 16},
